@@ -12,6 +12,8 @@ Extracted (fail closed; strict textual patterns, anything else is refused):
                         of `uint32 msgSize = SizeOfHeader + header->PayloadSize;` in HandleFragmentedData (ResetFragmentation();
                         OnDataReceived(data, count);) and in HandleUnfragmentedData (OnDataReceived(std::addressof(data[1]), count - 1);)
   asserts_compiled      the two assert(...) calls of HandleFragmentedData (outside DEBUG_CODE)
+  fragment_buf_size ... arm_conn_fingerprint   the __arm__ branch (arm_facts): FRAGMENT_BUF_SIZE, the member types, PutIntoFragmentBuffer,
+                        the three updates of the exceed flag, the capped largest message size, the two drop blocks
   conn_functions        names of the functions of the non-__arm__ branch, in source order (the hand-written model has one
                         definition per name; Model/Conn.v proves nothing about names, the harness compares the list)
   conn_fingerprint      sha256 of the comment/whitespace-normalised non-__arm__ text of these functions (a changed fingerprint
@@ -59,7 +61,11 @@ def header_fields():
 
 
 def non_arm(s):
-    """Select the non-__arm__ branch of every conditional on __arm__; any other conditional is refused."""
+    return select_branch(s, False)
+
+
+def select_branch(s, arm, lenient=False):
+    """Select the __arm__ (arm=True) or the non-__arm__ branch of every conditional on __arm__; any other conditional is refused."""
     out, stack = [], []   # stack of (keep_now, is_arm_conditional)
     for line in s.split("\n"):
         t = line.strip()
@@ -67,23 +73,26 @@ def non_arm(s):
             d = re.sub(r"\s+", " ", t)
             d = re.sub(r"//.*", "", d).strip()
             if d in ("#if defined(__arm__)", "#ifdef __arm__"):
-                stack.append(False)
+                stack.append(arm)
             elif d == "#if !defined(__arm__)":
-                stack.append(True)
+                stack.append(not arm)
+            elif lenient and d.startswith(("#if", "#ifdef", "#ifndef")):
+                stack.append(None)          # a conditional on something else (headers only): both branches are kept
             elif d == "#else":
                 if not stack:
                     raise Refuse("IConnection.cpp: #else without #if")
-                stack[-1] = not stack[-1]
+                if stack[-1] is not None:
+                    stack[-1] = not stack[-1]
             elif d == "#endif":
                 if not stack:
                     raise Refuse("IConnection.cpp: #endif without #if")
                 stack.pop()
-            elif d.startswith("#include"):
+            elif d.startswith("#include") or (lenient and d.startswith(("#pragma", "#define"))):
                 pass
             else:
                 raise Refuse("IConnection.cpp: unrecognised preprocessor line %r" % t)
             continue
-        if all(stack):
+        if all(x is not False for x in stack):
             out.append(line)
     if stack:
         raise Refuse("IConnection.cpp: unbalanced conditionals")
@@ -111,6 +120,61 @@ def functions(s):
 def need(pattern, s, what):
     if not re.search(pattern, s):
         raise Refuse("%s not found" % what)
+
+
+def arm_facts(cpp, hdr, rx):
+    """The __arm__ branch: fixed fragment buffer, 16 bit counters, the exceed flag; every statement Model/ConnArm.v models differently
+    from the non-__arm__ branch is matched textually (whitespace-normalised)."""
+    h = re.sub(r"\s+", " ", select_branch(hdr, True, lenient=True))
+    m = re.search(r"#define FRAGMENT_BUF_SIZE (\d+)", re.sub(r"[ \t]+", " ", hdr))
+    if not m or len(re.findall(r"#define\s+FRAGMENT_BUF_SIZE", hdr)) != 1:
+        raise Refuse("IConnection.h: #define FRAGMENT_BUF_SIZE <number> not found exactly once")
+    cap = int(m.group(1))
+    if cap < 8 or cap >= 65536:
+        raise Refuse("FRAGMENT_BUF_SIZE %d outside 8..65535" % cap)
+    for needed in ("uint16 m_largest_message_size;", "bool m_has_data_exceeding_fragment_buffer_size;",
+                   "uint8 m_fragment_buffer[FRAGMENT_BUF_SIZE];", "uint16 m_fragment_buffer_cnt;", "uint32 m_fragment_buffer_bytes_required;"):
+        if needed not in h:
+            raise Refuse("IConnection.h (__arm__): member %r not found" % needed)
+    if "std::vector" in h.split("class KOJEN_API IConnection")[1]:
+        raise Refuse("IConnection.h (__arm__): a std::vector member in the __arm__ branch")
+    need(r"virtual\s+uint16\s+LargestMessageSize\(\)\s*=\s*0\s*;", select_branch(rx, True, lenient=True), "IMsgReceiver::LargestMessageSize (__arm__)")
+    body = select_branch(cpp, True)
+    fns = dict((n, b) for n, b in functions(body))
+    for n in MODELLED + ["SetMsgReceiver"]:
+        if n not in fns:
+            raise Refuse("IConnection.cpp (__arm__): function %s not found" % n)
+
+    def has(fn, txt, what):
+        if re.sub(r"\s+", " ", txt) not in fns[fn]:
+            raise Refuse("IConnection.cpp (__arm__) %s: %s not found" % (fn, what))
+    if ", m_has_data_exceeding_fragment_buffer_size{false} , m_largest_message_size{FRAGMENT_BUF_SIZE} , m_fragment_buffer_cnt{0}" \
+            not in re.sub(r"\s+", " ", body) or ": m_fragment_buffer_bytes_required{0}" not in re.sub(r"\s+", " ", body):
+        raise Refuse("IConnection.cpp (__arm__): initial values of the members in the constructor not found")
+    has("SetMsgReceiver", "m_largest_message_size = receiver.LargestMessageSize(); if (m_largest_message_size > FRAGMENT_BUF_SIZE) m_largest_message_size = FRAGMENT_BUF_SIZE;",
+        "largest message size capped at the buffer size")
+    has("ResetFragmentation", "m_fragment_buffer_bytes_required = 0; m_fragment_buffer_cnt = 0; m_has_data_exceeding_fragment_buffer_size =false;", "reset of the three members")
+    has("PutIntoFragmentBuffer", "auto fragmentLast = m_fragment_buffer_cnt; m_fragment_buffer_cnt += count; if (m_has_data_exceeding_fragment_buffer_size) return; "
+        "std::copy(data, data + count, std::addressof(m_fragment_buffer[fragmentLast]));", "count, no copy when exceeding, copy at the old count")
+    hf, hu, od = fns["HandleFragmentedData"], fns["HandleUnfragmentedData"], fns["OnDataReceived"]
+    if not hf.startswith("IConnection::HandleFragmentedData(const uint8* data, const uint32 count) { uint32 totalFragmentedByteCount = count + m_fragment_buffer_cnt;"):
+        raise Refuse("HandleFragmentedData (__arm__): does not start with uint32 totalFragmentedByteCount = count + m_fragment_buffer_cnt")
+    exc = "m_has_data_exceeding_fragment_buffer_size = m_has_data_exceeding_fragment_buffer_size || "
+    if hf.count(exc + "(totalFragmentedByteCount > FRAGMENT_BUF_SIZE);") != 1 or hf.count(exc + "(msgSize > m_largest_message_size);") != 1 \
+            or hu.count(exc + "(msgSize > m_largest_message_size);") != 1 or (hf + hu + od).count("m_has_data_exceeding_fragment_buffer_size =") != 3:
+        raise Refuse("(__arm__) the three updates of m_has_data_exceeding_fragment_buffer_size are not the modelled ones")
+    drop = ("if (m_has_data_exceeding_fragment_buffer_size) { ResetFragmentation(); if (count > rxBytesParsed) { "
+            "OnDataReceived(std::addressof(data[rxBytesParsed]), count - rxBytesParsed); } return; } assert(")
+    if hf.count(drop) != 2:
+        raise Refuse("HandleFragmentedData (__arm__): the two `parsed over -> drop` blocks in front of the asserts not found")
+    if hf.count("m_msg_receiver->OnMessageReceived(std::addressof(m_fragment_buffer[0]), msgSize);") != 1 or \
+            hf.count("m_msg_receiver->OnMessageReceived(std::addressof(m_fragment_buffer[0]), m_fragment_buffer_cnt);") != 1:
+        raise Refuse("HandleFragmentedData (__arm__): the two deliveries from the fragment buffer not found")
+    if "m_fragment_buffer_bytes_required = msgSize - m_fragment_buffer_cnt;" not in hf or "if (0 == m_fragment_buffer_cnt)" not in od \
+            or "if (m_fragment_buffer_cnt > 0 || (actualCount < SizeOfHeader))" not in od:
+        raise Refuse("(__arm__) uses of m_fragment_buffer_cnt differ from the modelled ones")
+    fp = hashlib.sha256("\n".join(n + ":" + fns[n] for n in MODELLED + ["SetMsgReceiver"]).encode()).hexdigest()
+    return {"cap": cap, "fp": fp}
 
 
 def run():
@@ -167,6 +231,7 @@ def run():
     guard_bound = int(mf.group(1), 16)
     if hf.count("header->PayloadSize") != 2 or hu.count("header->PayloadSize") != 2:
         raise Refuse("header->PayloadSize is used in more places than the guard and the msgSize computation")
+    arm = arm_facts(cpp, hdr, rx)
     fp = hashlib.sha256("\n".join(n + ":" + b for n, b in modelled).encode()).hexdigest()
     out = ["From Coq Require Import NArith.", ""]
     out.append("Definition hdr_fields : list (string * N) := [\n    %s\n  ]." % ";\n    ".join(
@@ -179,6 +244,13 @@ def run():
     out.append("Definition oversize_guard_bound : N := %d%%N.   (* if (header->PayloadSize > 0x%X - SizeOfHeader) discard, in both paths *)" % (guard_bound, guard_bound))
     out.append("Definition conn_functions : list string := [\n    %s\n  ]." % ";\n    ".join(
         "%s  (* %s *)" % (coq_bs(n), n) for n, _ in modelled))
+    out.append("(* ---- the __arm__ branch (Model/ConnArm.v) ---- *)")
+    out.append("Definition fragment_buf_size : N := %d%%N.      (* #define FRAGMENT_BUF_SIZE; uint8 m_fragment_buffer[FRAGMENT_BUF_SIZE] *)" % arm["cap"])
+    out.append("Definition arm_cnt_bits : N := 16%N.            (* uint16 m_fragment_buffer_cnt; m_fragment_buffer_cnt += count *)")
+    out.append("Definition arm_largest_bits : N := 16%N.        (* uint16 m_largest_message_size = receiver.LargestMessageSize() *)")
+    out.append("Definition arm_largest_capped : bool := true.   (* if (m_largest_message_size > FRAGMENT_BUF_SIZE) m_largest_message_size = FRAGMENT_BUF_SIZE; *)")
+    out.append("Definition arm_drops_parsed_over : bool := true.  (* both delivery sites: if (m_has_data_exceeding_fragment_buffer_size) { reset; continue; return; } *)")
+    out.append("Definition arm_conn_fingerprint : string := %s." % coq_bs(arm["fp"]))
     out.append("Definition conn_fingerprint : string := %s." % coq_bs(fp))
     return write_gen("CxxConn.v", "\n".join(out) + "\n", SOURCES)
 
